@@ -1,4 +1,9 @@
 import PqlModel.Props.C09
+import PqlModel.Props.C09b
 #print axioms Pql.C09.C09_partition
 #print axioms Pql.C09.C09_rescan
 #print axioms Pql.C09.C09_rescan_any
+#print axioms Pql.C09.C09_number_value
+#print axioms Pql.C09.C09_accessors
+#print axioms Pql.C09.C09_refines_step
+#print axioms Pql.C09.C09_refines
